@@ -70,6 +70,13 @@ class BalancedMoveRule(BaseRule):
             return _TYPE_CONST_OF_MULTIPLY
 
         if isinstance(node.parent, AddExpression):
+            # Only a top-level addend of its side can be moved across the equals
+            # sign: every ancestor below the root has to be an addition.
+            top: Optional[MathExpression] = node.parent
+            while isinstance(top, AddExpression):
+                top = top.parent
+            if top is not root:
+                return None
             if isinstance(node, ConstantExpression) or get_term_ex(node) is not None:
                 return _TYPE_ADDITION
 
